@@ -31,7 +31,7 @@ META = {
                     'by a one-letter marker token; no catcode op inside an argument group; \\gdef writes the bottom frame and '
                     'may be shadowed by a live local definition (lookup yields the innermost live definition)',
                     'no fault space exists for this property (sequential refinement only)'],
-    'probe_names': ['local_def_restored', 'global_def_survives', 'let_restored', 'catcode_restored', 'if_survives', 'counter_survives',
+    'probe_names': ['char_let_shadowed', 'local_def_restored', 'global_def_survives', 'let_restored', 'catcode_restored', 'if_survives', 'counter_survives',
                     'nested_depth_ge3', 'env_inside_group', 'group_inside_env', 'math_group', 'cell_scope', 'argument_group',
                     'gdef_shadowed', 'catcode_cow_two_frames'],
     'shrink_budget': 400,
@@ -53,7 +53,8 @@ def generate(seed, tier):
     ident = 1
     weights = {'OPEN': r.choice([1, 2, 3]), 'CLOSE': r.choice([1, 2, 3]), 'DEF_LOCAL': r.choice([0, 2, 3]),
                'DEF_GLOBAL': r.choice([0, 1, 2]), 'LET': r.choice([0, 1, 2]), 'CATCODE': r.choice([0, 1, 2]),
-               'SETIF': r.choice([0, 1]), 'STEP': r.choice([0, 1]), 'PROBE': 3, 'CELLSEP': r.choice([0, 1])}
+               'SETIF': r.choice([0, 1]), 'STEP': r.choice([0, 1]), 'PROBE': 3, 'CELLSEP': r.choice([0, 1]),
+               'LETCHAR': r.choice([0, 1, 2])}
     kinds = [k for k, w in weights.items() for _ in range(w)]
     while len(ops) < n:
         o = r.choice(kinds)
@@ -82,6 +83,8 @@ def generate(seed, tier):
             ops.append({'op': 'LET', 'dst': a, 'src': b})
         elif o == 'CATCODE':
             ops.append({'op': 'CATCODE', 'code': r.choice([11, 12, 11, 12, 13])})
+        elif o == 'LETCHAR':
+            ops.append({'op': 'LETCHAR', 'dst': r.choice(['la', 'lb']), 'ch': r.choice('uvw')})
         elif o == 'SETIF':
             ops.append({'op': 'SETIF', 'value': r.random() < 0.5})
         elif o == 'STEP':
@@ -186,6 +189,18 @@ class Model(object):
         self.frames[-1]['macros'][dst] = self.lookup(src)
         self.frames[-1]['let'] = 1
 
+    def letchar(self, dst, ch):
+        if any(dst in f['lets'] for f in self.frames[:-1]):
+            self.info['char_let_shadowed'] = 1
+        self.frames[-1]['lets'][dst] = ch
+        self.frames[-1]['let'] = 1
+
+    def get_let(self, name):
+        for f in reversed(self.frames):
+            if name in f['lets']:
+                return f['lets'][name]
+        return None
+
     def catcode(self, code):
         if len(self.frames) >= 3 and '@' in self.frames[-2]['cats'] and '@' not in self.frames[-1]['cats']:
             self.info['catcode_cow_two_frames'] = 1
@@ -247,6 +262,10 @@ def run_api(ops):
         elif o == 'CATCODE':
             ctx.catcode('@', op['code'])
             m.catcode(op['code'])
+        elif o == 'LETCHAR':
+            from plasTeX.Tokenizer import Other
+            ctx.let(EscapeSequence(op['dst']), Other(op['ch']))
+            m.letchar(op['dst'], op['ch'])
         elif o == 'SETIF':
             inst = ctx['swtrue' if op['value'] else 'swfalse']()
             inst.ownerDocument = doc
@@ -267,6 +286,13 @@ def run_api(ops):
                 cls_ = 'local-leaked' if o == 'CLOSE' else ('lookup' if o in ('PROBE', 'OPEN') else o.lower())
                 raise ApiViolation('C04|api|macro|%s' % cls_, {'step': k, 'op': op, 'name': n, 'real': got, 'model': m.lookup(n),
                                                                'frames': [sorted(f['macros'].items()) for f in m.frames]})
+        for n in ('la', 'lb'):
+            tok = EscapeSequence(n)
+            got = ctx.get_let(tok)
+            exp = m.get_let(n)
+            if (exp is None and got is not tok) or (exp is not None and (got is tok or str(got) != exp)):
+                raise ApiViolation('C04|api|get_let|%s' % ('restored' if o == 'CLOSE' else 'lookup'),
+                                   {'step': k, 'op': op, 'name': n, 'real': None if got is tok else str(got), 'model': exp})
         if ctx.whichCode('@') != m.cat():
             raise ApiViolation('C04|api|catcode|%s' % ('restored' if o == 'CLOSE' else o.lower()),
                                {'step': k, 'op': op, 'real': ctx.whichCode('@'), 'model': m.cat()})
